@@ -1832,6 +1832,12 @@ def state_prepass(fdef, opt):
 
 def translate_module(repo, modname, mod):
     """mod: {"functions": [spec...], "generic": bool}. Returns Coq text."""
+    if mod.get("frontend") == "imp":    # [C19] second front end (loops, generators, mutation): tools/py2coq_imp.py
+        import py2coq_imp
+        try:
+            return py2coq_imp.translate_module(repo, modname, mod)
+        except py2coq_imp.Untranslatable as e:
+            raise Untranslatable(str(e))
     out = ["(* GENERATED by tools/py2coq.py from the current /repo working tree -- do not edit. *)",
            "From Coq Require Import ZArith Bool List.",
            "From PR Require Import Base.Slice Base.Num%s." % "".join(" " + m for m in mod.get("imports", [])),
